@@ -8,10 +8,10 @@ Variable inp : bstr.
 Notation ilen := (Z.of_nat (length inp)).
 Variable base : Z.
 Hypothesis base_nonneg : 0 <= base.
-Notation inv := (inv inp).
-Notation wf := (wf inp).
-Notation step_post := (step_post inp).
-Notation loop_post := (loop_post inp).
+Notation inv := (inv inp base).
+Notation wf := (wfi inp base).
+Notation step_post := (step_post inp base).
+Notation loop_post := (loop_post inp base).
 
 (* loop invariant: besides wf, a previous rune read in this invocation (r0 <> 0) lies after start,
    so that `l.start++` ("ignore the preceding space") stays in front of pos *)
@@ -19,21 +19,21 @@ Lemma lex_text_loop_ok fuel : forall r0 l, wf l -> (r0 <> 0 -> l_start l + 1 <= 
   (Z.to_nat (ilen - l_pos l) < fuel)%nat ->
   okp (lex_text_loop inp ilen base fuel r0 l) (loop_post 24 l).
 Proof.
-  induction fuel as [|f IH]; intros r0 l Hw Hr Hf; [lia|]. unfold LexerStates.wf in Hw. cbn [lex_text_loop]. cbv zeta.
+  induction fuel as [|f IH]; intros r0 l Hw Hr Hf; [lia|]. unfold wfi, LexerStates.wf in Hw. cbn [lex_text_loop]. cbv zeta.
   destruct (r0 =? 0) eqn:Er0; cbn [negb andb]; cbv iota.
   all:   repeat (dest_hyps; first
     [ exec1
     | match goal with
       | |- okp (lex_text_loop _ _ _ _ _ _) _ =>
           eapply okp_weaken; [apply IH; [post | norm_bools; lsimpl; intros; fin | side]
-                             | intros [? ?]; apply (loop_post_mono _ _ 24); lsimpl; side]
+                             | intros [? ?]; apply (loop_post_mono _ _ _ 24); lsimpl; side]
       end ]).
 Qed.
 
 Lemma lex_text_ok l : inv LText l -> okp (lex_text inp ilen base l) (step_post LText l).
 Proof.
-  intros (Hw & _). eapply okp_weaken; [apply lex_text_loop_ok; [exact Hw|congruence|apply loop_fuel_ok; unfold LexerStates.wf in Hw; lia]|].
-  intros p. apply (loop_post_step inp LText). discriminate.
+  intros (Hw & Hit & _). cbn [is_done] in Hit. eapply okp_weaken; [apply lex_text_loop_ok; [split; [exact Hw|exact Hit]|congruence|apply loop_fuel_ok; unfold LexerStates.wf in Hw; lia]|].
+  intros p. apply (loop_post_step inp base LText). discriminate.
 Qed.
 
 End Text.
